@@ -184,6 +184,95 @@ Theorem C05_shape_ok_spec : forall proto hn,
 Proof. exact shape_ok_spec_lemma. Qed.
 Print Assumptions C05_shape_ok_spec.
 
+(* ---- every option in view, and the start-up (Scope/Start.v) ------------------------------------------
+   --domains-crawl (a hop-count option of the postprocessor, with its own matcher) never widens the
+   include filter: an include filter is given and the URL matches none of its entries - it does not
+   pass, whatever --domains-crawl holds and whatever domainscrawl.Match answers about the URL. *)
+From ZenoV Require Import Scope.Start Scope.StartProofs.
+Theorem C05_domains_crawl_never_widens : forall (c : opcfg_x) (dcm : bool) (v : view),
+  inc_hosts (x_cfg c) <> [] \/ inc_strings (x_cfg c) <> [] ->
+  (forall e, In e (inc_hosts (x_cfg c)) -> ~ ScopeProofs.substring e (v_host1 v)) ->
+  (forall e, In e (inc_strings (x_cfg c)) -> ~ ScopeProofs.substring e (v_text v)) ->
+  passes_x c dcm v = false.
+Proof. exact domains_crawl_never_widens_lemma. Qed.
+Print Assumptions C05_domains_crawl_never_widens.
+
+(* Tree level, for every --domains-crawl setting and every answer of its matcher per node: a request
+   is attached only to a node whose URL is in scope under the four lists, wherever it sits. *)
+Theorem C05_domains_crawl_request_implies_scope :
+  forall (oc : opcfg_x) (dcm : N -> bool) nvs seen reqfail t t',
+    NoDup (ids t) -> (forall m, In m (flatten t) -> st_of m <> PreProcessed) ->
+    preprocess (scope_oracle_x oc dcm nvs seen reqfail) t = Ok t' ->
+    forall m', In m' (flatten t') -> st_of m' = PreProcessed ->
+      exists proto hn v,
+        nvs (id_of m') = NVAda proto hn (Some v) /\ v_url v = url_of m'
+        /\ shape_ok proto hn = true
+        /\ in_scope (gen_cfg (x_cfg oc)) (v_host1 v) (v_text v) (v_bits v) = true.
+Proof. exact domains_crawl_request_implies_scope_lemma. Qed.
+Print Assumptions C05_domains_crawl_request_implies_scope.
+
+(* What the two theorems exclude: an include block that asks the matcher lets a URL pass that the
+   operator's include filter does not admit. *)
+Theorem C05_widened_include_unsound :
+  exists (c : opcfg_x) (v : view),
+    dc_domain_match (x_domains_crawl c) (v_host1 v) = true
+    /\ passes_widened c true v = true /\ passes_x c true v = false
+    /\ in_scope (x_cfg c) (v_host1 v) (v_text v) (v_bits v) = false.
+Proof. exact passes_widened_unsound. Qed.
+Print Assumptions C05_widened_include_unsound.
+
+(* The exclusion files are read ONCE, at start-up; a file is a local path or an http(s) URL and the
+   read can fail ([fetch]: file system / network oracle; [compiles]: Go's regexp).  A crawl that
+   starts has read every file the operator named and has every line of every one in force. *)
+Theorem C05_start_all_exclusion_files_in_force :
+  forall (compiles : bytes -> bool) (fs : list fetch) (regs : list bytes),
+    load_files compiles fs = Some regs ->
+    forall f, In f fs ->
+      exists content, f = FOk content /\ forall l, In l (read_lines content) -> In l regs.
+Proof. exact start_all_in_force_lemma. Qed.
+Print Assumptions C05_start_all_exclusion_files_in_force.
+
+(* The effective list of a crawl that starts is the concatenation the filter theorems speak about. *)
+Theorem C05_start_effective_list :
+  forall (compiles : bytes -> bool) (fs : list fetch) (regs : list bytes),
+    load_files compiles fs = Some regs ->
+    regs = gen_regexes_raw (map content_of fs) /\ Forall (readable compiles) fs.
+Proof. exact load_files_some_lemma. Qed.
+Print Assumptions C05_start_effective_list.
+
+(* A named file that cannot be read (missing, connection refused, time-out, status other than 200,
+   body cut short, line above the scanner's limit) or holds a line Go's regexp refuses: the crawl does
+   not start - it never runs with only a part of the operator's exclusions. *)
+Theorem C05_unreadable_exclusion_file_refuses_start :
+  forall (compiles : bytes -> bool) (fs : list fetch) f,
+    In f fs -> ~ readable compiles f -> load_files compiles fs = None.
+Proof. exact unreadable_refuses_lemma. Qed.
+Print Assumptions C05_unreadable_exclusion_file_refuses_start.
+
+Theorem C05_failed_download_refuses_start : forall (compiles : bytes -> bool) (fs : list fetch),
+  In FFail fs -> load_files compiles fs = None.
+Proof. exact failed_fetch_refuses_lemma. Qed.
+Print Assumptions C05_failed_download_refuses_start.
+
+(* Whatever Go's regexp answers: in a crawl that started, a URL matched by a line of ANY named file is
+   out of scope under every configuration of the four lists. *)
+Theorem C05_started_crawl_excludes_all_files :
+  forall (compiles : bytes -> bool) (matches : bytes -> bytes -> bool)
+         (fs : list fetch) (regs : list bytes) content l (c : opcfg) host text,
+    load_files compiles fs = Some regs ->
+    In (FOk content) fs -> In l (read_lines content) -> matches l text = true ->
+    in_scope c host text (map (fun r => matches r text) regs) = false.
+Proof. exact start_excludes_lemma. Qed.
+Print Assumptions C05_started_crawl_excludes_all_files.
+
+(* What they exclude: the loop that skips an unreadable file starts without it. *)
+Theorem C05_fail_open_loader_unsound :
+  exists (fs : list fetch) (regs : list bytes),
+    In FFail fs /\ load_files_skipping (fun _ => true) fs = Some regs
+    /\ load_files (fun _ => true) fs = None.
+Proof. exact load_files_skipping_unsound. Qed.
+Print Assumptions C05_fail_open_loader_unsound.
+
 (* ---- lifted through the pipeline LTS of C01 (Pipe/PipeScope.v) -----------------------------------
    In EVERY execution of the whole pipeline (any worker count, any interleaving, any number of
    seeds and passes, any site behaviour) whose pre-processing answers come from the scope rule
